@@ -72,6 +72,18 @@ def gen_cases(rng, tier):
         yield {"kind": "gp", "name": name, "sched_seed": rng.randrange(10 ** 6), "seed": rng.randrange(10 ** 9),
                "cs_kind": "cont", "n_workers": 2, "max_events": 40, "style": "distinct", "p_fail": 0, "max_t": 9,
                "extra": {"brackets": 1, "num_init_random": 3}}
+    # GP searchers with several evaluations pending at a suggestion (joint fantasy samples), and DyHPO in its model-based phase
+    # with a small cap on the data the surrogate is fitted to (random subsample); appended: the cases above stay the same
+    for i in range(2 if tier == "quick" else 10):
+        if i % 2 == 0:
+            yield {"kind": "gp", "name": GP[(i // 2) % len(GP)], "sched_seed": rng.randrange(10 ** 6), "seed": rng.randrange(10 ** 9),
+                   "cs_kind": "cont", "n_workers": 3 + (i // 2) % 2, "max_events": 45, "style": "distinct", "p_fail": 0, "max_t": 9,
+                   "extra": {"brackets": 1, "num_init_random": 3}}
+        else:
+            yield {"kind": "gp", "name": "hb-dyhpo", "sched_seed": rng.randrange(10 ** 6), "seed": rng.randrange(10 ** 9),
+                   "cs_kind": "cont", "n_workers": 2, "max_events": 90, "style": "distinct", "p_fail": 0, "max_t": 9,
+                   "extra": {"num_init_random": 3, "rung_increment": 1,
+                             "search_options": {"max_size_data_for_model": 12, "opt_maxiter": 5, "opt_nstarts": 1, "num_init_candidates": 5}}}
 
 
     # simulated experiments (real Tuner + simulator backend on a synthetic table) in two fresh processes
